@@ -175,3 +175,300 @@ Proof.
   - now apply nodup_ids_unique.
   - apply IH; [assumption|cbn in Hi; lia].
 Qed.
+
+(* ---- which tables the tree holds after apply_compaction ---- *)
+Definition picked (ls : list (list table)) (c : compaction) (t : table) : Prop :=
+  (In t (nth (c_this c) ls []) /\ in_ids (c_top c) t = true)
+  \/ (In t (nth (c_next c) ls []) /\ in_ids (c_bot c) t = true).
+
+Definition new_tables (ls : list (list table)) (c : compaction) : list table :=
+  split_counts (compaction_output ls c) (c_layout c).
+
+Definition fresh_layout (ls : list (list table)) (c : compaction) : Prop :=
+  (forall i, In i (map fst (c_layout c)) -> ~ In i (all_ids ls)) /\ NoDup (map fst (c_layout c)).
+
+Lemma in_ids_spec ids t : in_ids ids t = true <-> In (t_id t) ids.
+Proof. unfold in_ids. apply existsb_eqb_in. Qed.
+
+Lemma in_ids_false ids t : in_ids ids t = false <-> ~ In (t_id t) ids.
+Proof. rewrite <- in_ids_spec. destruct (in_ids ids t); split; congruence. Qed.
+
+Lemma level_ids_in_all ls i t : (i < length ls)%nat -> In t (nth i ls []) -> In (t_id t) (all_ids ls).
+Proof.
+  intros Hi Ht. unfold all_ids. apply in_map. apply in_concat. exists (nth i ls []). split; auto.
+  now apply nth_In.
+Qed.
+
+Lemma nl_ids_unique ls c :
+  NoDup (all_ids ls) -> (c_next c < length ls)%nat -> fresh_layout ls c ->
+  ids_unique (drop_tables (c_bot c) (nth (c_next c) ls []) ++ new_tables ls c).
+Proof.
+  intros Hn Hnext [Hfresh Hnd] a b Ha Hb E.
+  apply in_app_or in Ha, Hb.
+  assert (Hnew: forall t, In t (new_tables ls c) -> In (t_id t) (map fst (c_layout c))).
+  { intros t Ht. unfold new_tables in Ht. rewrite <- (split_counts_ids (compaction_output ls c)).
+    now apply in_map. }
+  destruct Ha as [Ha|Ha], Hb as [Hb|Hb].
+  - apply in_drop_tables in Ha, Hb. destruct Ha as [Ha _], Hb as [Hb _].
+    eapply (nodup_level_unique ls (c_next c)); eauto.
+  - exfalso. apply in_drop_tables in Ha. destruct Ha as [Ha _].
+    apply (Hfresh (t_id b)); [now apply Hnew|]. rewrite <- E. eapply level_ids_in_all; eauto.
+  - exfalso. apply in_drop_tables in Hb. destruct Hb as [Hb _].
+    apply (Hfresh (t_id a)); [now apply Hnew|]. rewrite E. eapply level_ids_in_all; eauto.
+  - (* two new tables with the same id *)
+    unfold new_tables in *.
+    assert (Hu: ids_unique (split_counts (compaction_output ls c) (c_layout c))).
+    { apply nodup_ids_unique. now rewrite split_counts_ids. }
+    now apply Hu.
+Qed.
+
+Theorem apply_compaction_tables ls c t :
+  NoDup (all_ids ls) -> (c_this c < length ls)%nat -> (c_next c < length ls)%nat ->
+  fresh_layout ls c ->
+  (forall i, In i (c_top c) -> In i (map t_id (nth (c_this c) ls []))) ->
+  order_ok (c_order c)
+    (let nl := drop_tables (c_bot c) (nth (c_next c) ls []) ++ new_tables ls c in
+     if (c_this c =? c_next c)%nat then drop_tables (c_top c) nl else nl) = true ->
+  in_levels (apply_compaction ls c) t <->
+  (in_levels ls t /\ ~ picked ls c t) \/ In t (new_tables ls c).
+Proof.
+  intros Hn Hthis Hnext Hfresh Htop Hord.
+  pose proof (nl_ids_unique ls c Hn Hnext Hfresh) as Hu.
+  set (nl := drop_tables (c_bot c) (nth (c_next c) ls []) ++ new_tables ls c) in *.
+  unfold apply_compaction. fold (new_tables ls c). fold nl.
+  set (ls1 := set_level ls (c_next c) (reorder (c_order c) nl)).
+  assert (L1: length ls1 = length ls) by apply set_level_length.
+  assert (Hnew_fresh: forall x, In x (new_tables ls c) -> ~ In (t_id x) (all_ids ls)).
+  { intros x Hx. destruct Hfresh as [Hf _]. apply Hf. unfold new_tables in Hx.
+    rewrite <- (split_counts_ids (compaction_output ls c)). now apply in_map. }
+  assert (Hnew_not_top: forall x, In x (new_tables ls c) -> in_ids (c_top c) x = false).
+  { intros x Hx. apply in_ids_false. intros Hin. apply (Hnew_fresh x Hx).
+    specialize (Htop _ Hin). apply in_map_iff in Htop. destruct Htop as (t0 & E & Ht0).
+    rewrite <- E. exact (level_ids_in_all ls (c_this c) t0 Hthis Ht0). }
+  unfold in_levels at 1. rewrite set_level_length, L1.
+  split.
+  - intros (i & Hi & Hti). rewrite nth_set_level in Hti by lia.
+    destruct (i =? c_this c)%nat eqn:Ei.
+    + apply Nat.eqb_eq in Ei. subst i. apply in_drop_tables in Hti. destruct Hti as [Hti Hnt].
+      unfold ls1 in Hti. rewrite nth_set_level in Hti by lia.
+      destruct (c_this c =? c_next c)%nat eqn:En.
+      * apply Nat.eqb_eq in En. apply reorder_sub in Hti. unfold nl in Hti. apply in_app_or in Hti.
+        destruct Hti as [Hti|Hti]; [|now right]. left. apply in_drop_tables in Hti. destruct Hti as [Hl Hnb].
+        split; [exists (c_next c); auto|]. intros [[_ P]|[_ P]]; congruence.
+      * left. split; [exists (c_this c); auto|]. intros [[_ P]|[Hl P]]; [congruence|].
+        apply Nat.eqb_neq in En.
+        eapply (nodup_levels_disjoint ls (c_this c) (c_next c) t t); eauto.
+    + unfold ls1 in Hti. rewrite nth_set_level in Hti by lia.
+      destruct (i =? c_next c)%nat eqn:En.
+      * apply Nat.eqb_eq in En. subst i. apply reorder_sub in Hti. unfold nl in Hti. apply in_app_or in Hti.
+        destruct Hti as [Hti|Hti]; [|now right]. left. apply in_drop_tables in Hti. destruct Hti as [Hl Hnb].
+        split; [exists (c_next c); auto|]. apply Nat.eqb_neq in Ei.
+        intros [[Hl' P]|[_ P]]; [|congruence].
+        eapply (nodup_levels_disjoint ls (c_next c) (c_this c) t t); eauto.
+      * left. apply Nat.eqb_neq in Ei, En. split; [exists i; auto|].
+        intros [[Hl' P]|[Hl' P]].
+        -- eapply (nodup_levels_disjoint ls i (c_this c) t t); eauto.
+        -- eapply (nodup_levels_disjoint ls i (c_next c) t t); eauto.
+  - intros [[(i & Hi & Hti) Hnp]|Hnew].
+    + (* an old table that was not picked stays in its level *)
+      exists i. split; [lia|]. rewrite nth_set_level by lia.
+      assert (Hnt: i = c_this c -> in_ids (c_top c) t = false).
+      { intros ->. destruct (in_ids (c_top c) t) eqn:P; auto. exfalso. apply Hnp. left. auto. }
+      assert (Hnb: i = c_next c -> in_ids (c_bot c) t = false).
+      { intros ->. destruct (in_ids (c_bot c) t) eqn:P; auto. exfalso. apply Hnp. right. auto. }
+      assert (Hreo: i = c_next c -> In t (reorder (c_order c) nl)).
+      { intros ->. apply reorder_complete; auto.
+        - unfold nl. apply in_or_app. left. apply in_drop_tables. auto.
+        - eapply order_ok_covers; eauto.
+          assert (Hin: In t nl) by (unfold nl; apply in_or_app; left; apply in_drop_tables; auto).
+          destruct (c_this c =? c_next c)%nat eqn:En; auto.
+          apply Nat.eqb_eq in En. apply in_drop_tables. split; auto; try (apply Hnt; lia). }
+      destruct (i =? c_this c)%nat eqn:Ei.
+      * apply Nat.eqb_eq in Ei. subst i. apply in_drop_tables. split; [|auto].
+        unfold ls1. rewrite nth_set_level by lia.
+        destruct (c_this c =? c_next c)%nat eqn:En; auto. apply Nat.eqb_eq in En. auto.
+      * unfold ls1. rewrite nth_set_level by lia.
+        destruct (i =? c_next c)%nat eqn:En; auto. apply Nat.eqb_eq in En. auto.
+    + (* a new table lands in the output level *)
+      assert (Hin: In t nl) by (unfold nl; apply in_or_app; now right).
+      assert (Hreo: In t (reorder (c_order c) nl)).
+      { apply reorder_complete; auto. eapply order_ok_covers; eauto.
+        destruct (c_this c =? c_next c)%nat; auto. apply in_drop_tables. split; auto. }
+      exists (c_next c). split; [lia|]. rewrite nth_set_level by lia.
+      destruct (c_next c =? c_this c)%nat eqn:E.
+      * apply in_drop_tables. split; [|auto]. unfold ls1. rewrite nth_set_level by lia.
+        apply Nat.eqb_eq in E. rewrite <- E, Nat.eqb_refl. exact Hreo.
+      * unfold ls1. rewrite nth_set_level by lia. now rewrite Nat.eqb_refl.
+Qed.
+
+(* ---- from tables to entries ---- *)
+Definition picked_ids (c : compaction) : list N := c_top c ++ c_bot c.
+Definition rest_tables (ls : list (list table)) (c : compaction) : list table :=
+  filter (fun t => negb (in_ids (picked_ids c) t)) (concat ls).
+Definition rest_entries (ls : list (list table)) (c : compaction) : list entry :=
+  concat (map t_ents (rest_tables ls c)).
+
+Definition pick_wf (ls : list (list table)) (c : compaction) : Prop :=
+  (c_this c < length ls)%nat /\ (c_next c < length ls)%nat
+  /\ (forall i, In i (c_top c) -> In i (map t_id (nth (c_this c) ls [])))
+  /\ (forall i, In i (c_bot c) -> In i (map t_id (nth (c_next c) ls []))).
+
+Lemma same_id_same_place ls i j a b :
+  NoDup (all_ids ls) -> (i < length ls)%nat -> (j < length ls)%nat ->
+  In a (nth i ls []) -> In b (nth j ls []) -> t_id a = t_id b -> i = j /\ a = b.
+Proof.
+  intros Hn Hi Hj Ha Hb E. destruct (Nat.eq_dec i j) as [->|Hne].
+  - split; auto. eapply (nodup_level_unique ls j); eauto.
+  - exfalso. eapply (nodup_levels_disjoint ls i j a b); eauto.
+Qed.
+
+Lemma picked_iff_ids ls c t :
+  NoDup (all_ids ls) -> pick_wf ls c -> in_levels ls t ->
+  (picked ls c t <-> in_ids (picked_ids c) t = true).
+Proof.
+  intros Hn (Hthis & Hnext & Htop & Hbot) (i & Hi & Hti). unfold picked, picked_ids.
+  rewrite (in_ids_spec (c_top c ++ c_bot c)), in_app_iff. split.
+  - intros [[_ P]|[_ P]]; apply in_ids_spec in P; auto.
+  - intros [P|P].
+    + specialize (Htop _ P). apply in_map_iff in Htop. destruct Htop as (t0 & E & Ht0).
+      destruct (same_id_same_place ls i (c_this c) t t0 Hn Hi Hthis Hti Ht0 (eq_sym E)) as [-> ->].
+      left. split; auto. now apply in_ids_spec.
+    + specialize (Hbot _ P). apply in_map_iff in Hbot. destruct Hbot as (t0 & E & Ht0).
+      destruct (same_id_same_place ls i (c_next c) t t0 Hn Hi Hnext Hti Ht0 (eq_sym E)) as [-> ->].
+      right. split; auto. now apply in_ids_spec.
+Qed.
+
+Lemma keep_table_nil t : keep_table [] t = true.
+Proof. reflexivity. Qed.
+
+Lemma filter_keep_nil l : filter (keep_table []) l = l.
+Proof. induction l as [|x l IH]; cbn; auto. now rewrite IH. Qed.
+
+(* the compaction reads exactly the entries of the picked tables *)
+Lemma inputs_entries ls c x :
+  c_drop c = [] ->
+  In x (concat (compaction_inputs ls c)) <-> exists t, picked ls c t /\ In x (t_ents t).
+Proof.
+  intros Hd. unfold compaction_inputs, picked. rewrite Hd, filter_keep_nil.
+  rewrite concat_app, in_app_iff. cbn [concat]. rewrite app_nil_r.
+  assert (Htop: In x (concat (match c_this c with
+                                | O => map t_ents (rev (pick_tables (c_top c) (nth (c_this c) ls [])))
+                                | S _ => map t_ents (pick_tables (c_top c) (nth (c_this c) ls []))
+                                end))
+                <-> exists t, (In t (nth (c_this c) ls []) /\ in_ids (c_top c) t = true) /\ In x (t_ents t)).
+  { destruct (c_this c); rewrite in_concat; split.
+    - intros (l & Hl & Hx). apply in_map_iff in Hl. destruct Hl as (t & <- & Ht). apply in_rev in Ht.
+      apply in_pick_tables in Ht. eauto.
+    - intros (t & Ht & Hx). exists (t_ents t). split; auto. apply in_map. apply -> in_rev.
+      now apply in_pick_tables.
+    - intros (l & Hl & Hx). apply in_map_iff in Hl. destruct Hl as (t & <- & Ht).
+      apply in_pick_tables in Ht. eauto.
+    - intros (t & Ht & Hx). exists (t_ents t). split; auto. apply in_map. now apply in_pick_tables. }
+  rewrite Htop, in_concat. split.
+  - intros [(t & Ht & Hx)|(l & Hl & Hx)]; [eauto|].
+    apply in_map_iff in Hl. destruct Hl as (t & <- & Ht). apply in_pick_tables in Ht. eauto.
+  - intros (t & [Ht|Ht] & Hx); [left; eauto|].
+    right. exists (t_ents t). split; auto. apply in_map. now apply in_pick_tables.
+Qed.
+
+Lemma rest_entries_in ls c x :
+  In x (rest_entries ls c) <->
+  exists t, in_levels ls t /\ in_ids (picked_ids c) t = false /\ In x (t_ents t).
+Proof.
+  unfold rest_entries, rest_tables. rewrite in_concat. split.
+  - intros (l & Hl & Hx). apply in_map_iff in Hl. destruct Hl as (t & <- & Ht).
+    apply filter_In in Ht. destruct Ht as [Ht Hn]. apply negb_true_iff in Hn.
+    exists t. split; [now apply in_levels_concat|auto].
+  - intros (t & Ht & Hn & Hx). exists (t_ents t). split; auto. apply in_map. apply filter_In.
+    split; [now apply in_levels_concat|now apply negb_true_iff].
+Qed.
+
+Lemma levels_entries_before ls c x :
+  NoDup (all_ids ls) -> pick_wf ls c -> c_drop c = [] ->
+  (exists t, in_levels ls t /\ In x (t_ents t)) <->
+  In x (concat (compaction_inputs ls c)) \/ In x (rest_entries ls c).
+Proof.
+  intros Hn Hwf Hd. rewrite inputs_entries by assumption. rewrite rest_entries_in. split.
+  - intros (t & Ht & Hx). destruct (in_ids (picked_ids c) t) eqn:P.
+    + left. exists t. split; auto. now apply (picked_iff_ids ls c t Hn Hwf Ht).
+    + right. eauto.
+  - intros [(t & Hp & Hx)|(t & Ht & _ & Hx)]; [|eauto].
+    exists t. split; auto. destruct Hwf as (Hthis & Hnext & _).
+    destruct Hp as [[Hl _]|[Hl _]]; [exists (c_this c)|exists (c_next c)]; auto.
+Qed.
+
+Lemma levels_entries_after ls c x :
+  NoDup (all_ids ls) -> pick_wf ls c -> fresh_layout ls c ->
+  layout_sum (c_layout c) = length (compaction_output ls c) ->
+  order_ok (c_order c)
+    (let nl := drop_tables (c_bot c) (nth (c_next c) ls []) ++ new_tables ls c in
+     if (c_this c =? c_next c)%nat then drop_tables (c_top c) nl else nl) = true ->
+  (exists t, in_levels (apply_compaction ls c) t /\ In x (t_ents t)) <->
+  In x (compaction_output ls c) \/ In x (rest_entries ls c).
+Proof.
+  intros Hn Hwf Hfresh Hsum Hord. pose proof Hwf as (Hthis & Hnext & Htop & Hbot).
+  rewrite rest_entries_in. split.
+  - intros (t & Ht & Hx). apply (apply_compaction_tables ls c t Hn Hthis Hnext Hfresh Htop Hord) in Ht.
+    destruct Ht as [[Ht Hnp]|Ht].
+    + right. exists t. split; auto. split; auto.
+      destruct (in_ids (picked_ids c) t) eqn:P; auto. exfalso. apply Hnp.
+      now apply (picked_iff_ids ls c t Hn Hwf Ht).
+    + left. apply (split_counts_entries _ _ x Hsum). eauto.
+  - intros [Hx|(t & Ht & Hnp & Hx)].
+    + apply (split_counts_entries _ _ x Hsum) in Hx. destruct Hx as (t & Ht & Hx).
+      exists t. split; auto. apply (apply_compaction_tables ls c t Hn Hthis Hnext Hfresh Htop Hord). now right.
+    + exists t. split; auto. apply (apply_compaction_tables ls c t Hn Hthis Hnext Hfresh Htop Hord).
+      left. split; auto. intros Hp. apply (picked_iff_ids ls c t Hn Hwf Ht) in Hp. congruence.
+Qed.
+
+(* ---- Theorem C: an installed compaction preserves every Get at ts >= discard ---- *)
+Definition tree_after (d : lsm) (c : compaction) : lsm :=
+  mkLsm (l_mt d) (l_imm d) (apply_compaction (l_levels d) c).
+Definition outside (d : lsm) (c : compaction) : list entry :=
+  l_mt d ++ concat (l_imm d) ++ rest_entries (l_levels d) c.
+Definition cparams_of (ls : list (list table)) (c : compaction) : cparams :=
+  mkCP (c_discard c) (c_nkeep c) (compaction_overlap ls c) (c_drop c) (c_now c).
+
+Lemma levels_exists_conv (ls : list (list table)) x :
+  (exists l t, In l ls /\ In t l /\ In x (t_ents t)) <-> (exists t, in_levels ls t /\ In x (t_ents t)).
+Proof.
+  split.
+  - intros (l & t & Hl & Ht & Hx). exists t. split; auto. apply in_levels_nth. eauto.
+  - intros (t & Ht & Hx). apply in_levels_nth in Ht. destruct Ht as (l & Hl & Ht). eauto.
+Qed.
+
+Theorem installed_compaction_preserves_get d c k ts now' :
+  let ls := l_levels d in
+  lsm_wf d -> lsm_wf (tree_after d c) ->
+  NoDup (all_ids ls) -> pick_wf ls c -> fresh_layout ls c ->
+  layout_sum (c_layout c) = length (compaction_output ls c) ->
+  order_ok (c_order c)
+    (let nl := drop_tables (c_bot c) (nth (c_next c) ls []) ++ new_tables ls c in
+     if (c_this c =? c_next c)%nat then drop_tables (c_top c) nl else nl) = true ->
+  c_drop c = [] ->
+  nodup_kv (all_entries d) ->
+  Forall sorted (compaction_inputs ls c) ->
+  (forall e, In e (concat (compaction_inputs ls c)) -> dead_marker (cparams_of ls c) e ->
+     compaction_overlap ls c = false ->
+     forall o, In o (outside d c) -> e_key o = e_key e -> e_ver e < e_ver o) ->
+  c_discard c <= ts -> c_now c <= now' ->
+  vis_of now' (db_get (tree_after d c) k ts) = vis_of now' (db_get d k ts).
+Proof.
+  intros ls Hwf Hwf' Hn Hpw Hfresh Hsum Hord Hdrop Hnd Hsorted HR Hts Hnow.
+  apply (compaction_preserves_get d (tree_after d c) (cparams_of ls c)
+           (compaction_inputs ls c) (outside d c)); auto.
+  - intros x. rewrite all_entries_in, levels_exists_conv. fold ls.
+    rewrite (levels_entries_before ls c x Hn Hpw Hdrop).
+    unfold outside. rewrite !in_app_iff.
+    split.
+    + intros [H|[(s0 & A & B)|[H|H]]]; auto.
+      right. right. left. apply in_concat. eauto.
+    + intros [H|[H|[H|H]]]; auto. apply in_concat in H. destruct H as (s0 & A & B). right. left. eauto.
+  - intros x. rewrite all_entries_in, levels_exists_conv. cbn [tree_after l_mt l_imm l_levels]. fold ls.
+    rewrite (levels_entries_after ls c x Hn Hpw Hfresh Hsum Hord).
+    unfold outside, compaction_output, cparams_of. rewrite !in_app_iff.
+    split.
+    + intros [H|[(s0 & A & B)|[H|H]]]; auto.
+      right. right. left. apply in_concat. eauto.
+    + intros [H|[H|[H|H]]]; auto. apply in_concat in H. destruct H as (s0 & A & B). right. left. eauto.
+Qed.
